@@ -28,6 +28,10 @@ CHECKS["C20"] = ("histspace", "model_checking",
    "the same bounded exhaustive history exploration as C04, with an independent arena-invariant walker evaluated on every reached state and on the patch graphs (collect / squash previews) built from it",
    "the walker uses only the public read API of Graph; bound: see evidence",
    "explicit-state exploration of operation sequences on the implementation, invariant checked in every state", "§5 C20")
+CHECKS["C11"] = ("sched", "model_checking",
+   "stateless model checking of the real message loop and the real per-request worker threads under a controlled scheduler: for every client script up to the bound, all interleavings of loop steps and worker steps (start / computing-with-read-access / computed / responded / exit) are executed on the real main_loop, one actor at a time, with prefix replay; each execution is checked against fresh-server answers (linearisation: a request is answered from a state at or after the notifications that precede it; final state = last text sent; one response per request)",
+   "scheduling points are the verif-hooks events plus thread join; worker-worker steps are treated as commuting (handlers only read the server); rayon inside handlers is not scheduled",
+   "stateless model checking (DFS over schedules with prefix replay and a sleep-set style partial-order reduction) of the implementation under a hook-driven cooperative scheduler", "§5 C11")
 NOT_APPLICABLE = {}
 manifest = {
  "version": 1,
@@ -41,6 +45,7 @@ manifest = {
  },
  "engines": [
    {"name": "histspace", "path": "/verif/mc/src/engines/hist.rs", "serves_properties": ["C04","C20"], "kind_free_text": "enumerates all update/insert histories up to a depth and runs them on the real Database / Server"},
+   {"name": "sched", "path": "/verif/mc/src/engines/sched.rs", "serves_properties": ["C11"], "kind_free_text": "hook-driven cooperative scheduler exploring all interleavings of the real LSP message loop and request workers"},
    {"name": "docspace", "path": "/verif/mc/src/engines/docs.rs", "serves_properties": ["C01","C02","C03","C07"], "kind_free_text": "enumerates documents from a token alphabet / block grammar / inline grammar and runs the real formatter and server on each"},
  ],
  "checks": [],
